@@ -210,6 +210,13 @@ func chanTryRecv(p *Chan, v unsafe.Pointer, eltSize int, acceptSelectSend bool) 
 	if n == 0 {
 		p.mutex.Lock()
 		for !*done && !p.close {
+			if p.sends == 0 {
+				// The select-send we published for has left without delivering
+				// (its select completed through another case): withdraw.
+				p.getp = chanNoSendRecv
+				p.data = nil
+				break
+			}
 			p.cond.Wait(&p.mutex)
 		}
 		recvOK = *done
@@ -474,6 +481,10 @@ func endSelect(c *Chan, selOp *selectOp, isSend bool) {
 		}
 	}
 	c.mutex.Unlock()
+	if c.cap == 0 && isSend {
+		// A receiver that published itself for this select-send must re-check.
+		c.cond.Broadcast()
+	}
 }
 
 // -----------------------------------------------------------------------------
